@@ -27,6 +27,7 @@
 
 from __future__ import annotations
 
+import re
 from dataclasses import dataclass, field
 from fractions import Fraction
 from typing import Optional
@@ -57,6 +58,9 @@ class IMSCWriterConfiguration(ModuleConfiguration):
         return None
 
       if not isinstance(value, str):
+        raise ValueError(f"Invalid fps '{value}' value. Expect: '<num>/<denom>'.")
+
+      if re.fullmatch(r"[0-9]+/[0-9]+", value) is None:
         raise ValueError(f"Invalid fps '{value}' value. Expect: '<num>/<denom>'.")
 
       [num, den] = value.split('/')
